@@ -29,7 +29,13 @@ MODELLED_NOT_VERIFIED = [
     "C15: age order: the model sorts stably (as list.sort does); the statement asks only for monotone age, so model and "
     "implementation are compared up to the order inside groups of equal age",
 ]
-EXPLANATION = ("Extension round: protocol_ids_distinct / protocol_subtree_ids_distinct (every tree parseTree returns has distinct ids, "
+EXPLANATION = ("Final round: visits_distinct (+ visits_distinct_of_ids, build_subtree_ids_distinct): the ids every node/edge iterator "
+               "prints are pairwise distinct on every protocol subtree ('exactly once' about the printed ids, including inRun and "
+               "ageIter); inorder_run_each_node_once (the in-order statement on the function the driver runs); start_has_parent_iff "
+               "(the driver's hasParent = the ancestor chain is non-empty; the det flag is protocol input); "
+               "ancestor_pointer_refinement_build with a kernel-checked instance. internal_spec, ageorder_sorted_stable and "
+               "inorder_each_node_once are kept as obligations but are definitional / not about driver-run functions (their "
+               "docstrings say so). Extension round: protocol_ids_distinct / protocol_subtree_ids_distinct (every tree parseTree returns has distinct ids, "
                "for any parent array), internal_nodes_driver_spec / tree_internal_lists_driver_spec (no id hypothesis left), "
                "ancestor_pointer_refinement (ancIter = the pointer climb over the parent array, driver kind ancptr), "
                "levelorder_generations / levelorder_depth_monotone (explicit non-decreasing depths), apply_dyck (labelled Dyck word, "
@@ -225,7 +231,10 @@ def oracle(c, w, seed):
     acc = None if (c["acc"] is None or kind in UNFILTERED) else set(c["acc"])
     keep = (lambda x: True) if acc is None else (lambda x: w.nid(x) in acc)
     is_leaf = lambda x: len(x._child_nodes) == 0
-    internal = lambda x: (not is_leaf(x)) and not (excl and x._parent_node is None)
+    # "has a parent" decided from the child lists alone (is x listed as a child of any node of this case?), never from the
+    # _parent_node pointer the code itself consults - a stale pointer after splicing must not be shared by code and oracle
+    listed = {id(ch) for nd in w.nodes for ch in nd._child_nodes}
+    internal = lambda x: (not is_leaf(x)) and not (excl and id(x) not in listed)
     I = lambda l: [w.nid(x) for x in l]
     if kind in ("pre", "preedge", "nodes", "edges"):
         return I(x for x in o_pre(seed) if keep(x))
@@ -373,6 +382,48 @@ def impl(c, w, seed, obj, cap=None):
     raise ValueError(kind)
 
 
+def deliberate(e):
+    """a refusal = an exception library code raises on purpose: the innermost frame is library code executing a `raise`
+    statement.  A TypeError/AttributeError/IndexError escaping from an expression deep inside is a crash, not a refusal."""
+    import traceback
+    if not common.is_library_exception(e):
+        return False
+    frames = traceback.extract_tb(e.__traceback__)
+    line = (frames[-1].line or "").strip() if frames else ""
+    return line.startswith("raise ") or line == "raise"
+
+
+def judge_prior(ctx, c, w, pk, take, want_p, got_p, exc, where):
+    """earlier traversals are judged too: a drained one must be its defining order, an abandoned one a prefix of it"""
+    ages = [Fraction(a) for a in c["ages"]]
+    if want_p == "undefined":
+        if exc is not None and not deliberate(exc):
+            ctx.fail("crash", "%s: earlier traversal %s crashed with %s (not a deliberate refusal)" % (where, pk, type(exc).__name__), c)
+        return
+    if exc is not None:
+        ctx.fail("exception", "%s: earlier traversal %s raised %s where the statement defines the answer [%s]" % (
+            where, pk, type(exc).__name__, fmt(want_p)), c)
+        return
+    partial = take is not None and pk not in ("apply", "len") and len(got_p) == take + 1 and len(want_p) > take + 1
+    if pk in AGE:
+        desc = "desc" in pk
+        ok = monotone_age(got_p, ages, desc) and len(set(map(str, got_p))) == len(got_p) and set(map(str, got_p)) <= set(map(str, want_p))
+        if not partial:
+            ok = ok and sorted(map(str, got_p)) == sorted(map(str, want_p))
+        else:   # abandoned: what was yielded must be the smallest (largest) ages so far
+            rest = [ages[i] for i in want_p if i not in got_p]
+            if got_p and rest:
+                last = ages[got_p[-1]]
+                ok = ok and all((a <= last) if desc else (a >= last) for a in rest)
+        if not ok:
+            ctx.fail("age-order", "%s: earlier traversal %s yielded [%s]; passing nodes are [%s]" % (where, pk, fmt(got_p), fmt(want_p)), c)
+        return
+    exp = want_p[:take + 1] if partial else want_p
+    if fmt(got_p) != fmt(exp):
+        ctx.fail("order", "%s: earlier traversal %s%s visited [%s], defining order%s is [%s]" % (
+            where, pk, " (abandoned)" if partial else "", fmt(got_p), " (prefix)" if partial else "", fmt(exp)), c)
+
+
 def fmt(x):
     return x if isinstance(x, str) else " ".join(str(i) for i in x)
 
@@ -406,20 +457,24 @@ def one_case(ctx, dendropy, c, pending):
     ages = [Fraction(a) for a in c["ages"]]
     want = oracle(c, w, seed)
     want_nofilter = oracle(dict(c, acc=None), w, seed)   # only used to recognise the documented falsy-filter defect
+    want_prior = [oracle(dict(c, kind=pk, acc=None, alt=False), w, seed) for pk, take in c["prior"]]
     where = "%s via %s from node %d (filter %s/%s, node class %s%s)" % (
         kind, via, start, c["acc"], c["fstyle"], c["nodecls"],
         "".join(", after %s%s" % (pk, "" if take is None else " abandoned after %d items" % (take + 1)) for pk, take in c["prior"]))
-    got, refused = None, None
+    got, refused, refusal_ok = None, None, True
     try:
         with time_limit(10):
             # earlier traversals of the same objects (drained, or abandoned after a few items): a traversal is a read-only
             # walk, so what the judged traversal must yield is still the defining order of the tree as it was built
-            for pk, take in c["prior"]:
+            for (pk, take), want_p in zip(c["prior"], want_prior):
+                got_p, exc = None, None
                 try:
-                    impl(dict(c, kind=pk, acc=None, alt=False), w, seed, obj, cap=take)
+                    got_p = impl(dict(c, kind=pk, acc=None, alt=False), w, seed, obj, cap=take)
                 except Exception as e:
                     if not common.is_library_exception(e):
                         raise
+                    exc = e
+                judge_prior(ctx, c, w, pk, take, want_p, got_p, exc, where)
             got = impl(c, w, seed, obj)
     except common.Timeout:
         ctx.fail("hang", "%s: this sequence of traversals does not terminate within 10 s" % where, c)
@@ -428,6 +483,7 @@ def one_case(ctx, dendropy, c, pending):
         if not common.is_library_exception(e):
             raise
         refused = type(e).__name__
+        refusal_ok = deliberate(e)
     filtered = c["acc"] is not None and kind not in UNFILTERED
     nontrivial = (start != 0 or filtered or c["nodecls"] != "plain" or kind in ("apply", "in", "inedge", "anc") or kind in AGE)
     ctx.case([c["tree"], kind, start, via, c["excl"], c["incl"], c["acc"], c["fstyle"], c["nodecls"], c["alt"], c["prior"],
@@ -442,8 +498,11 @@ def one_case(ctx, dendropy, c, pending):
         ctx.count("tree_on_spliced_subtree")
     desc = "desc" in kind
     if want == "undefined":
-        # in-order on a subtree that is not strictly binary: the statement defines nothing; refusing (any exception) is fine
+        # in-order on a subtree that is not strictly binary: the statement defines nothing; refusing (an exception of any
+        # class raised on purpose by library code) is fine, a crash from deep inside is not
         ctx.count("inorder_undefined_" + ("refused" if refused else "answered"))
+        if refused and not refusal_ok:
+            ctx.fail("crash", "%s: crashed with %s on a non-binary subtree (not a deliberate refusal)" % (where, refused), c)
         canon = "refused" if refused else None
     elif refused is not None:
         ctx.fail("exception", "%s: raised %s where the statement defines the answer [%s]" % (where, refused, fmt(want)), c)
@@ -559,7 +618,7 @@ def make_case(rng, toks, n, kind, start=None, via=None, max_age=6):
 def run(ctx):
     dendropy = __import__("dendropy")
     rng = ctx.rng
-    ctx.set_budget(40, 420)
+    ctx.set_budget(35, 420)
     pending = []
     ncases = ctx.pick(6000, 120000)
     max_leaves = ctx.pick(12, 40)
